@@ -81,6 +81,8 @@ def sites_of(tree: ast.Module, equivalent: bool = False) -> list[Site]:
         if isinstance(node, ast.FunctionDef | ast.AsyncFunctionDef):
             if node.name in SKIP_FUNCS:
                 return
+            if equivalent and isinstance(node, ast.FunctionDef) and not any(isinstance(n_, ast.Yield | ast.YieldFrom) for n_ in ast.walk(node)):
+                whole_function_rewrites(node, node.name if func is None else f'{func}.{node.name}')
             func = node.name if func is None else f'{func}.{node.name}'
             body = node.body
             if body and isinstance(body[0], ast.Expr) and isinstance(getattr(body[0], 'value', None), ast.Constant) and isinstance(body[0].value.value, str):
@@ -98,6 +100,64 @@ def sites_of(tree: ast.Module, equivalent: bool = False) -> list[Site]:
             if isinstance(ch, ast.expr_context | ast.operator | ast.cmpop | ast.boolop | ast.unaryop):
                 continue
             visit(ch, func)
+
+    def whole_function_rewrites(node, func):
+        doc = [node.body[0]] if (node.body and isinstance(node.body[0], ast.Expr) and isinstance(getattr(node.body[0], 'value', None), ast.Constant)
+                                 and isinstance(node.body[0].value.value, str)) else []
+        body = node.body[len(doc):]
+        if not body:
+            return
+        # (1) the body inside try / finally with an empty clean-up
+        wrapped = copy.copy(node)
+        wrapped.decorator_list = []  # the decorators stay where they are, above the replaced text
+        wrapped.body = [*doc, ast.Try(body=body, handlers=[], orelse=[], finalbody=[ast.Pass()])]
+        out.append(Site(node, wrapped, 'eq-tryfinally', func))
+        # (2) a debug log line on entry (local import, as the package does elsewhere)
+        logged = copy.copy(node)
+        logged.decorator_list = []
+        log_stmts = ast.parse("import logging as _logging\n_logging.getLogger(__name__).debug('entering %s', " + repr(node.name) + ")").body
+        logged.body = [*doc, *log_stmts, *body]
+        out.append(Site(node, logged, 'eq-log', func))
+        # (3) every returned expression first bound to a local name
+        class _Ret(ast.NodeTransformer):
+            def visit_FunctionDef(self, n):
+                return n if n is not node else self.generic_visit(n)
+
+            visit_Lambda = visit_ClassDef = visit_AsyncFunctionDef = lambda self, n: n
+
+            def visit_Return(self, n):
+                if n.value is None or isinstance(n.value, ast.Name | ast.Constant):
+                    return n
+                return [ast.Assign(targets=[ast.Name(id='_result', ctx=ast.Store())], value=n.value, lineno=n.lineno), ast.Return(value=ast.Name(id='_result', ctx=ast.Load()))]
+        temp = _Ret().visit(copy.deepcopy(node)) if False else None
+        tnode = copy.deepcopy(node)
+        tnode.decorator_list = []
+        changed = [False]
+
+        def rewrite_returns(stmts):
+            new_stmts = []
+            for st in stmts:
+                if isinstance(st, ast.Return) and st.value is not None and not isinstance(st.value, ast.Name | ast.Constant):
+                    new_stmts.append(ast.Assign(targets=[ast.Name(id='_result', ctx=ast.Store())], value=st.value, lineno=0))
+                    new_stmts.append(ast.Return(value=ast.Name(id='_result', ctx=ast.Load())))
+                    changed[0] = True
+                    continue
+                for fld in ('body', 'orelse', 'finalbody'):
+                    sub = getattr(st, fld, None)
+                    if isinstance(sub, list) and sub and isinstance(sub[0], ast.stmt) and not isinstance(st, ast.FunctionDef | ast.ClassDef | ast.AsyncFunctionDef):
+                        setattr(st, fld, rewrite_returns(sub))
+                if isinstance(st, ast.Try):
+                    for h in st.handlers:
+                        h.body = rewrite_returns(h.body)
+                if isinstance(st, ast.Match):
+                    for c_ in st.cases:
+                        c_.body = rewrite_returns(c_.body)
+                new_stmts.append(st)
+            return new_stmts
+        tnode.body = rewrite_returns(tnode.body)
+        if changed[0]:
+            ast.fix_missing_locations(tnode)
+            out.append(Site(node, tnode, 'eq-temp', func))
 
     def numeric_const(n):
         return isinstance(n, ast.Constant) and isinstance(n.value, int | float) and not isinstance(n.value, bool)
